@@ -650,6 +650,13 @@ class UpdateCollection(Message):
             # MP_REACH_NLRI contains nexthop - use iter_routed() for RoutedNLRI
             announces.extend(reach.iter_routed())
 
+        # RFC 7606 section 2, treat-as-withdraw: "all of the routes ... in the UPDATE message" are handled
+        # "as though ... listed in the WITHDRAWN ROUTES field". The parser leaves the marker in the
+        # attributes; acting on it is done here, where the routes are known.
+        if Attribute.CODE.INTERNAL_TREAT_AS_WITHDRAW in attributes:
+            withdraws.extend(routed.nlri for routed in announces)
+            announces = []
+
         return cls(announces, withdraws, attributes)
 
     # EOR prefix for non-IPv4-unicast families
